@@ -80,6 +80,10 @@ CHECKS = {
    text="About 1 950 messages per quick run: 1..4 signers and recipients, content 0..64 KiB; round trips for signed, enveloped, encrypted and signed-and-enveloped data; flipped bits inside content, signatures, encrypted keys, IV and ciphertext must be rejected (full field neighbourhoods for a few messages, sampled otherwise); outsider keys and zero-signer messages must be rejected.",
    note="Known findings: EncryptedData / EnvelopedData are SM4-CBC without integrity (GM/T 0010 format), so IV and ciphertext bit flips are accepted there; listed in known_findings.json and reported as KNOWN-FINDING. Certificates inside SignedData are not covered by the CMS signature and are not flipped.",
    design="4/C16"),
+ "C20": dict(level="exploration", engine="tsan-harness", technique="generated multi-thread programs (Hypothesis, in the driver) executed by a pthreads C harness statically linked with the ThreadSanitizer build of the library; harness-owned per-thread deterministic getentropy()/time(); differential oracle: per-operation output digests of every concurrent run equal those of the sequential run; yield injection between library calls; delta debugging of failing programs; per-kind soak programs",
+   text="Programs of 2..16 threads x 5..40 operations over 21 kinds (hashes/MAC/KDF, SM4/AES/ZUC modes, SM2, SM9, X.509 parse/verify/issue/print, CMS, base64/PEM/DER, TLS record protection, complete TLCP/TLS 1.2/TLS 1.3 handshakes on private socketpairs) plus same-kind soaks; each program is run once alone and 3-4 times concurrently with different yield-injection seeds; no ThreadSanitizer report with a library frame and identical digests are required. Schedules are sampled, not enumerated.",
+   note="Trusted: clang ThreadSanitizer, the harness's private SHA-256/xoshiro, vlib/pki.py. TSan reports unordered conflicting accesses it observes even without temporal collision, within its bounded per-thread history and only while the earlier thread is alive; accesses made by uninstrumented libc are invisible to it (the ctime() finding surfaced through the digest oracle and an indirect tzset report). Absence of races is never established. Non-trivial = >= 2 threads with intersecting op-kind sets.",
+   design="4/C20"),
 }
 
 NOT_YET = {
@@ -113,6 +117,8 @@ def main():
         "engines": [
             {"name": "hypothesis-ctypes", "path": "vlib/core.py", "serves_properties": [c["property_id"] for c in checks if c["engine"] == "hypothesis-ctypes"],
              "kind_free_text": "Hypothesis 6.168 workers driving sanitizer builds of /repo's working tree through ctypes; entropy/clock interposer preloaded"},
+            {"name": "tsan-harness", "path": "props/C20.py", "serves_properties": [c["property_id"] for c in checks if c["engine"] == "tsan-harness"],
+             "kind_free_text": "native/tsan_harness.c (pthreads executor, own getentropy/time) linked with the -fsanitize=thread build; programs generated by Hypothesis in props/C20.py"},
             {"name": "libfuzzer", "path": "props/C06.py", "serves_properties": [c["property_id"] for c in checks if c["engine"] == "libfuzzer"],
              "kind_free_text": "libFuzzer (clang 14) campaigns over fuzz/fz_*.c with ASan+UBSan subset, MSan corpus replay, committed regression inputs"},
         ],
